@@ -10,10 +10,13 @@ package main
 
 import (
 	"bufio"
+	"io"
 	"encoding/hex"
 	"fmt"
 	"os"
 	"strings"
+
+	"github.com/alibaba/RedisShake/pkg/libs/log"
 )
 
 type probe func(c []string, out *bufio.Writer)
@@ -43,6 +46,9 @@ func main() {
 		fmt.Fprintln(os.Stderr, "usage: rsprobe <property> <cases> <obs>")
 		os.Exit(2)
 	}
+	// the tool logs through pkg/libs/log: silence it (C19 installs its own capturing logger)
+	log.StdLog = log.New(log.NopCloser(io.Discard), "")
+	log.SetLevel(log.LEVEL_NONE)
 	p, ok := probes[os.Args[1]]
 	if !ok {
 		fmt.Fprintln(os.Stderr, "rsprobe: unknown property", os.Args[1])
